@@ -429,6 +429,60 @@ def gt_json(g):
     return "{" + ",".join(json.dumps(k, ensure_ascii=False) + ":" + gt_json(x) for k, x in g.items) + "}"
 
 
+def gen_anchor_stream(rng):
+    """1-3 documents, each a block mapping whose values define anchors (names from a small pool, so they are redefined
+    within a document and again in later documents) and refer to them; an alias denotes the most recent definition"""
+    docs, lines = [], []
+    for d in range(rng.choice([1, 2, 2, 3])):
+        if d > 0:
+            lines.append("---")
+        bound, items = {}, []
+        for i in range(rng.choice([2, 3, 4, 6])):
+            key = "k%d" % i
+            if bound and rng.random() < 0.45:
+                nm = rng.choice(sorted(bound))
+                lines.append("%s: *%s" % (key, nm))
+                items.append((key, bound[nm]))
+                continue
+            g = gen_gt(rng, 2, 3, floats=False)
+            if g.kind == "n" and g.text == "":
+                g = GT("n", None, "null")
+            txt = gt_yaml_flow(rng, g)
+            if rng.random() < 0.7:
+                nm = rng.choice(["x", "base", "a1"])
+                bound[nm] = g
+                if txt.startswith("!!str "):
+                    txt = yaml_dq(g.val)
+                lines.append("%s: &%s %s" % (key, nm, txt))
+            else:
+                lines.append("%s: %s" % (key, txt))
+            items.append((key, g))
+        docs.append(GT("o", items=items))
+    return "\n".join(lines) + "\n", docs
+
+
+def py_parse_stream(b):
+    """the concatenated JSON documents yq prints for a multi-document input"""
+    text = b.decode("utf-8")
+    dec = json.JSONDecoder(object_pairs_hook=Pairs, parse_int=int, parse_float=float)
+    out, i = [], 0
+    while True:
+        while i < len(text) and text[i] in " \t\r\n":
+            i += 1
+        if i >= len(text):
+            return out
+        v, i = dec.raw_decode(text, i)
+        out.append(v)
+
+
+ANCHOR_FIXED = [("first: &x 1\nr1: *x\nsecond: &x two\nr2: *x\n",
+                 [GT("o", items=[("first", GT("i", 1, "1")), ("r1", GT("i", 1, "1")), ("second", GT("s", "two")), ("r2", GT("s", "two"))])]),
+                ("a: &base {n: 1}\nb: *base\n---\na: &base {n: 2}\nb: *base\n---\nc: &base [3]\nd: *base\ne: &base four\nf: *base\n",
+                 [GT("o", items=[("a", GT("o", items=[("n", GT("i", 1, "1"))])), ("b", GT("o", items=[("n", GT("i", 1, "1"))]))]),
+                  GT("o", items=[("a", GT("o", items=[("n", GT("i", 2, "2"))])), ("b", GT("o", items=[("n", GT("i", 2, "2"))]))]),
+                  GT("o", items=[("c", GT("a", items=[GT("i", 3, "3")])), ("d", GT("a", items=[GT("i", 3, "3")])), ("e", GT("s", "four")), ("f", GT("s", "four"))])])]
+
+
 class Pairs(list):
     pass
 
@@ -606,6 +660,16 @@ def replay(rp):
             return False
         want = py_parse(vlib.b64d(rp["expected_json_b64"]))
         return json_equal(want, got)
+    if kind == "yaml2json_stream":
+        rc, out, err = vlib.run_yq(rp["args"], stdin=vlib.b64d(rp["input_b64"]))
+        if rc != 0:
+            return False
+        try:
+            got = py_parse_stream(out)
+            want = [py_parse(vlib.b64d(x)) for x in rp["expected_json_b64"]]
+        except Exception:
+            return False
+        return len(got) == len(want) and all(json_equal(a, b) for a, b in zip(want, got))
     if kind == "json_roundtrip":
         src = vlib.b64d(rp["input_b64"])
         rc, y, err = vlib.run_yq(["-p=json", "-o=yaml", "--unwrapScalar=false", "."], stdin=src)
@@ -882,6 +946,36 @@ def run(chk):
     chk.extra["yaml2json_runs"] = len(jobs)
 
     vlib.log("C06 section 3 at %.1fs" % (time.time() - chk.t0))
+    # ---------------- 3b. anchors and aliases: names redefined within a document and across the documents of a stream ----------------
+    an_cases = list(ANCHOR_FIXED) + [gen_anchor_stream(rng) for _ in range(1500 if thorough else 150)]
+    jobs = [(["-o=json", "-I%d" % rng.choice([0, 2]), "."], t.encode("utf-8")) for t, _ in an_cases]
+    n_fail = 0
+    for (t, docs), (args, src), (rc, out, err) in zip(an_cases, jobs, run_yq_many(jobs)):
+        chk.count(("anchors", t), nontrivial="*" in t, sample={"yaml": t[:160], "json": out.decode("utf-8", "replace")[:160]} if len(t) < 160 and "---" in t else None)
+        why = None
+        if rc != 0:
+            why = "yq failed: " + err.decode("utf-8", "replace")[:200]
+        else:
+            try:
+                got = py_parse_stream(out)
+                if len(got) != len(docs):
+                    why = "%d documents in, %d JSON values out" % (len(docs), len(got))
+                else:
+                    for di, (g, v) in enumerate(zip(docs, got)):
+                        ds = diff(g, v, "doc%d" % di)
+                        if ds:
+                            why = "value differs at %s: want %r got %r" % (ds[0][0], ds[0][2], ds[0][3])
+                            break
+            except Exception as e:  # noqa
+                why = "output is not a sequence of JSON values (%s)" % e
+        if why:
+            n_fail += 1
+            if n_fail <= 5:
+                chk.violation({"kind": "yaml2json_stream", "args": args, "input_b64": vlib.b64e(src), "input": t,
+                               "expected_json_b64": [vlib.b64e(gt_expected_json(g)) for g in docs], "impl_out": out.decode("utf-8", "replace")[:2000]}, True,
+                              "yq -o=json with anchors/aliases: " + why)
+    chk.extra["anchor_alias_streams"] = len(an_cases)
+
     # ---------------- 4. unrepresentable values must be an error; out-of-range integers ----------------
     must_err = []
     for t in [".inf", "-.inf", "+.inf", ".Inf", ".INF", "-.Inf", "-.INF", ".nan", ".NaN", ".NAN"]:
